@@ -100,7 +100,7 @@ def gen_cases(rng, tier):
             new = gen_feats(rng, rng.choice([1, 2, 4]), pool_old + ["x"])
         else:
             new = [dict(f) for f in old]
-        cases.append({"k": "create", "mode": mode, "old": old, "new": new, "force": i % 2 == 0})
+        cases.append({"k": "create", "mode": mode, "old": old, "new": new, "force": i % 2 == 0, "emptied": i % 5 == 4})
     m = 150 if tier == "quick" else 3000
     for i in range(m):
         calls = [{"c": rng.choice(CALLS), "r": rng.randrange(10 ** 6)} for _ in range(rng.choice([3, 5, 8, 12]))]
@@ -109,7 +109,10 @@ def gen_cases(rng, tier):
             # work permanent (the file still holds what it held when the object is closed)
             for _ in range(rng.choice([1, 2])):
                 calls.insert(rng.randrange(len(calls)), {"c": rng.choice(FAILED_WRITES), "r": rng.randrange(10 ** 6)})
-        cases.append({"k": "reads", "feats": hierarchy(rng), "calls": calls})
+        case = {"k": "reads", "feats": hierarchy(rng), "calls": calls}
+        if i % 4 == 1:
+            case["dialect_gap"] = rng.choice(["order", "order", "trailing semicolon", "repeated keys"])
+        cases.append(case)
     return cases
 
 
@@ -242,6 +245,11 @@ def run_impl(c):
                 db = gffutils.create_db([imp.to_feature(x) for x in c["old"]], path, merge_strategy="create_unique", verbose=False)
                 db.conn.close()
                 del db
+                if c.get("emptied"):
+                    db = gffutils.FeatureDB(path)
+                    db.delete([f.id for f in db.all_features()], make_backup=False)
+                    db.conn.close()
+                    del db
                 out["old"] = ["ok", dump_file(path)[0]]
             except Exception as ex:
                 out["old"] = ["err", L.err_class(ex)]
@@ -264,7 +272,12 @@ def run_impl(c):
             except Exception as ex:
                 out["after"] = ["err", L.err_class(ex)]
             return out
-        db = gffutils.create_db([imp.to_feature(x) for x in c["feats"]], path, merge_strategy="create_unique", verbose=False)
+        kw = {}
+        if c.get("dialect_gap"):
+            # a stored dialect that lacks a key (hand-written, or from an older version): opening such a file is a read
+            from gffutils import constants
+            kw["dialect"] = dict((k, v) for k, v in constants.dialect.items() if k != c["dialect_gap"])
+        db = gffutils.create_db([imp.to_feature(x) for x in c["feats"]], path, merge_strategy="create_unique", verbose=False, **kw)
         db.conn.close()
         del db
         gc.collect()
@@ -307,7 +320,7 @@ def coq_case(c, o):
     rows = lambda fs: L.lst([imp.coq_row(x) for x in fs], "row")
     if c["k"] == "create":
         outcome = "(Ok tt)" if o.get("outcome", ["err", "Other"])[0] == "ok" else "(Err %s)" % L.ERR[o.get("outcome", ["err", "Other"])[1]]
-        return "CCreate %s %s %s %s %s %s %s" % (rows(c["old"]), rows(c["new"]), L.b(c["force"]), imp.res_tables(o["old"]),
+        return "CCreate %s %s %s %s %s %s %s %s" % (rows(c["old"]), rows(c["new"]), L.b(c["force"]), L.b(bool(c.get("emptied"))), imp.res_tables(o["old"]),
                                                 outcome, imp.res_tables(o.get("after", ["err", "Other"])),
                                                 L.b(o.get("bytes_same", False)))
     tr = []
@@ -326,6 +339,7 @@ def labels(c, o):
     if c["k"] == "create":
         yield "ids=" + c["mode"]
         yield "force=%s" % c["force"]
+        yield "emptied=%s" % bool(c.get("emptied"))
         yield "outcome=" + (o.get("outcome", ["?"])[0])
     else:
         for x in c["calls"]:
